@@ -664,7 +664,8 @@ def beacon_gate_options_string(bgo: BeaconGateOptions) -> list[str]:
         ret.append("Cleanup")
         options -= cleanup
 
-    ret.extend(options)
+    # remaining individual APIs, in the order of the BeaconGateOptions structure
+    ret.extend(name for name in bgo.fields if name in options)
     return ret
 
 
